@@ -160,6 +160,57 @@ prop("C05",
      outside="strings longer than the bound, non-ASCII bytes, Display with width/fill/precision flags")
 
 # ------------------------------------------------------------------------------------------------
+# C07 / C08 and the CC14 part of C15, C16, C17
+# ------------------------------------------------------------------------------------------------
+ALL = 0xFFFF
+prop("C07",
+     bounds="message: all 16 x 32 x 16384 messages, all 128 controller numbers for the panic condition, "
+            "both encoding targets; inversion: from EVERY reachable scanner state - all 16 channels "
+            "simultaneously arbitrary (family ALL16, justified by the C08 induction), one solver query per "
+            "message channel; unwind 17 (16-channel arrays) with unwinding assertions",
+     outside="nothing within the statement; encoding targets other than RawShortMessage / "
+             "StructuredShortMessage")
+prop("C08",
+     bounds="one-step induction over the observer 'most recent Control Change < 32 per channel': every "
+            "abstract state of all 16 channels x every Control Change (16 instances, one per channel of the "
+            "step message, controller number and value symbolic) x every non-Control-Change message x reset; "
+            "post-state compared with the scanner rebuilt from the advanced observer (derived PartialEq); "
+            "histories of any length follow by induction; literal 4-event histories on channel pairs as a "
+            "cross-check; unwind 17",
+     outside="nothing within the statement (the induction covers all histories); trusted: derived "
+             "PartialEq of the scanner is structural")
+for _c in range(16):
+    add("cc14_step_cc_ch%02d" % _c, "cc14::step_cc", ["C08", "C15", "C16", "C04", "C18"],
+        "ALL16: every abstract state of all 16 channels x every Control Change on channel %d "
+        "(controller number, value symbolic): output and post-state vs. observer" % _c,
+        args="0xFFFF, %d" % _c, unwind=17, cost=60)
+    add("cc14_inversion_ch%02d" % _c, "cc14::inversion", ["C07", "C18"],
+        "ALL16: every state x every 14-bit CC message on channel %d: encoding fed back yields None, "
+        "then the original (raw and structured targets)" % _c,
+        args="0xFFFF, %d" % _c, unwind=17, cost=60)
+add("cc14_step_other", "cc14::step_other", ["C08", "C15", "C16", "C18"],
+    "ALL16: every state x every message that is not a Control Change (all channel voice messages on "
+    "all channels, all system messages, raw and structured): nothing reported, state equal",
+    args="0xFFFF", unwind=17, cost=90)
+add("cc14_reset_and_copy", "cc14::reset_and_copy", ["C17", "C08", "C18"],
+    "ALL16: every state: reset() == new() == default(); copies evolve identically and independently",
+    args="0xFFFF", unwind=17, cost=60)
+add("cc14_message_ok", "cc14::message_ok", ["C07", "C04", "C18"],
+    "all 16 x 32 x 16384 messages: getters, both encodings, array conversion", cost=20)
+add("cc14_message_must_panic", "cc14::message_must_panic", ["C07", "C18"],
+    "all MSB controller numbers 32..=127 x channel x value: new must panic", expect="must_panic")
+for (_a, _b) in [(0, 1), (7, 8), (15, 0), (3, 11)]:
+    add("cc14_literal_%d_%d" % (_a, _b), "cc14::literal", ["C08", "C15", "C17", "C18"],
+        "literal histories from new(): 4 symbolic events (CC<64 on channel %d or %d, or reset)" % (_a, _b),
+        args="%d, %d" % (_a, _b), unwind=17, cost=30)
+    add("cc14_interleave_%d_%d" % (_a, _b), "cc14::interleave", ["C15", "C18"],
+        "literal: 4 symbolic CC events on channels %d/%d interleaved vs. split to own scanners" % (_a, _b),
+        args="%d, %d" % (_a, _b), unwind=17, cost=30)
+add("c16_predicates", "cc14::predicates", ["C16", "C02", "C18"],
+    "all 128 controller numbers: the four ControllerNumber predicates")
+add("cc14_twin", "cc14::twin", ["C07", "C08"], "witness twin", expect="witness_fail", unwind=17)
+
+# ------------------------------------------------------------------------------------------------
 
 def all_harnesses():
     import gen
